@@ -360,7 +360,15 @@ class Impl:
             else algo.lower().replace("-", "_")
         d = hashlib.new(from_name, data).hexdigest()
         if ck == "b":
-            d = ("0" if d[0] != "0" else "1") + d[1:]
+            how = (real or {}).get("bad", "flip")
+            if how == "nonascii":
+                d = "\uff11" + d[1:]                  # a full-width digit: not a hex digest, compares unequal
+            elif how == "short":
+                d = d[:-2]                            # a truncated digest
+            elif how == "accent":
+                d = d[:-1] + "\u00e9"
+            else:
+                d = ("0" if d[0] != "0" else "1") + d[1:]
         if ck == "x":
             # a wrong checksum that is the true digest of ANOTHER content (a client mixing up two files)
             other = (real or {}).get("other_data") or (data + b"?")
